@@ -447,6 +447,8 @@ theorem WF_keeperStart {s s' : State} {id consumer} (hs : WF s) (h : keeperStart
   · cases h
   split at h
   · cases h
+  split at h
+  · cases h
   cases h
   have h1 : WF (setCtx s id { rc with state := .running }) := hs.setCtx_core hg rfl
   split
@@ -1131,6 +1133,35 @@ open Irismod Irismod.Sdk Irismod.Service Irismod.Spec.C13S
 theorem WF.withBank {s : State} (h : WF s) (b : Bank) : WF { s with bank := b } :=
   h.of_same ⟨rfl, rfl, rfl, rfl, rfl, rfl, rfl⟩
 
+/-- pausing a queued context (no funds / no exchange rate) and dropping its queue entry -/
+theorem WF_pausedDel {s : State} (hs : WF s) (id : CtxId) (hm : AMap.get? s.newH id = some s.height) (c : Ctx)
+    (cause : String) :
+    WF (delNew (onPaused s id c cause) id s.height) ∧ (delNew (onPaused s id c cause) id s.height).height = s.height ∧
+    (∀ e, e ∈ (delNew (onPaused s id c cause) id s.height).newQ → e ∈ s.newQ) ∧
+    (∀ id', id' ≠ id → AMap.get? (delNew (onPaused s id c cause) id s.height).newH id' = AMap.get? s.newH id') := by
+  have hnc : AMap.contains s.newH id = true := (contains_iff _ _).mpr ⟨_, hm⟩
+  have hlive := hs.live id (Or.inl hnc)
+  have hna := hs.no_active_of_new hnc
+  have h1 : WF (onPaused s id c cause) := by
+    unfold onPaused
+    have hp := hs.setCtx_noActive (id := id) { c with batchState := .completed, state := .paused } hlive hna
+      (by intro h; cases h)
+    split
+    · exact hp.of_same ⟨rfl, rfl, rfl, rfl, rfl, rfl, rfl⟩
+    · exact hp
+  have hnew : (onPaused s id c cause).newH = s.newH ∧ (onPaused s id c cause).newQ = s.newQ ∧
+      (onPaused s id c cause).height = s.height := by
+    unfold onPaused; split <;> exact ⟨rfl, rfl, rfl⟩
+  refine ⟨WF.delNew h1 id s.height (by rw [hnew.1]; exact hm), ?_, ?_, ?_⟩
+  · simp only [delNew]; exact hnew.2.2
+  · intro e he
+    simp only [delNew] at he
+    rw [hnew.2.1] at he
+    exact (List.mem_filter.mp he).1
+  · intro id' hi
+    simp only [delNew]
+    rw [hnew.1, get?_erase_other _ _ _ (Ne.symm hi)]
+
 theorem WF_newBatch {s : State} (hs : WF s) (id : CtxId) (hm : AMap.get? s.newH id = some s.height) :
     WF (newBatch s id) ∧ (newBatch s id).height = s.height ∧
     (∀ e, e ∈ (newBatch s id).newQ → e ∈ s.newQ) ∧
@@ -1146,7 +1177,7 @@ theorem WF_newBatch {s : State} (hs : WF s) (id : CtxId) (hm : AMap.get? s.newH 
   rw [hgc]
   split
   · split
-    · exact ⟨hs, rfl, fun _ h => h, fun _ _ => rfl⟩
+    · exact WF_pausedDel hs id hm c _
     · rename_i provs total _
       split
       · -- charge and start
@@ -1189,27 +1220,7 @@ theorem WF_newBatch {s : State} (hs : WF s) (id : CtxId) (hm : AMap.get? s.newH 
             simp only [delNew, addExp, initiateRequests, setCtx, hget]
             rw [m2, get?_erase_other _ _ _ (Ne.symm hi)]
         · -- the consumer cannot pay: automatic pause
-          have h1 : WF (onPaused { s with bank := (debitCoins s.bank c.consumer (sortCoins total)).1 } id c) := by
-            unfold onPaused
-            have hb := hs.withBank (debitCoins s.bank c.consumer (sortCoins total)).1
-            have hp := hb.setCtx_noActive (id := id) { c with batchState := .completed, state := .paused } hlive hna
-              (by intro h; cases h)
-            split
-            · exact hp.of_same ⟨rfl, rfl, rfl, rfl, rfl, rfl, rfl⟩
-            · exact hp
-          have hnew : (onPaused { s with bank := (debitCoins s.bank c.consumer (sortCoins total)).1 } id c).newH = s.newH ∧
-              (onPaused { s with bank := (debitCoins s.bank c.consumer (sortCoins total)).1 } id c).newQ = s.newQ ∧
-              (onPaused { s with bank := (debitCoins s.bank c.consumer (sortCoins total)).1 } id c).height = s.height := by
-            unfold onPaused; split <;> exact ⟨rfl, rfl, rfl⟩
-          refine ⟨WF.delNew h1 id s.height (by rw [hnew.1]; exact hm), ?_, ?_, ?_⟩
-          · simp only [delNew]; exact hnew.2.2
-          · intro e he
-            simp only [delNew] at he
-            rw [hnew.2.1] at he
-            exact hdelQ _ e he
-          · intro id' hi
-            simp only [delNew]
-            rw [hnew.1, get?_erase_other _ _ _ (Ne.symm hi)]
+          exact WF_pausedDel hs id hm c _
       · -- no provider qualifies: the batch is skipped
         refine ⟨?_, rfl, ?_, ?_⟩
         · refine hs.startBatch hm (s.height + c.timeout) (startedCtx c 0) [] (by simp) (by intro r hr; cases hr) rfl rfl rfl
